@@ -16,5 +16,6 @@ GROUP = dict(
            dict(id='theory.segs', kind='raw', text=_c.theory_text('segs.rs')),
            dict(id='theory.segs_lemmas', kind='raw', text=_c.lemmas_contract_only(_c.theory_text('segs_lemmas.rs'), 'parse_seg')),
            dict(id='theory.ckfix', kind='raw', text=_c.theory_text('ckfix.rs')),
+           dict(id='theory.ckspell', kind='raw', text=_c.theory_text('ckspell.rs')),
     ],
 )
